@@ -794,6 +794,32 @@ func pureKey(v ssa.Value) string {
 	return fmt.Sprintf("%p", v)
 }
 
+// accessPath names the memory location or value a read denotes by its path from a root value (fields, constant or
+// pure indices), so that two separate reads of x.a.b are recognised as the same operand. It does not prove that the
+// location is unchanged between the reads; callers use it only to match a guard with the value it guards inside one
+// function.
+func accessPath(v ssa.Value) string {
+	v = strip(v)
+	switch x := v.(type) {
+	case *ssa.UnOp:
+		if x.Op == token.MUL {
+			switch a := x.X.(type) {
+			case *ssa.FieldAddr:
+				return accessPath(a.X) + "." + fieldOf(a).Name()
+			case *ssa.IndexAddr:
+				return accessPath(a.X) + "[" + pureKey(a.Index) + "]"
+			case *ssa.Alloc:
+				return fmt.Sprintf("cell:%p", a)
+			}
+		}
+	case *ssa.Field:
+		return accessPath(x.X) + "." + fieldOfField(x).Name()
+	case *ssa.FieldAddr:
+		return accessPath(x.X) + ".&" + fieldOf(x).Name()
+	}
+	return pureKey(v)
+}
+
 // condKey returns the canonical key and polarity of the condition on an If edge.
 func condKey(e edge) (string, bool) {
 	iff := ifOf(e.from)
